@@ -12,7 +12,9 @@ import numpy as np
 from harness import core
 
 # (r0, delta, L0, l0): includes an inner scale that is large compared with the pixel, and repeated geometry with another r0
-PARAMS = [(0.15, 0.1, 20.0, 0.01), (0.30, 0.1, 20.0, 0.01), (0.2, 0.1, 8.0, 0.3), (0.1, 0.05, 100.0, 0.02)]
+# ... the Kolmogorov limit (infinite outer scale) and an outer scale smaller than the screen (L0 <= N delta for every N in scope)
+PARAMS = [(0.15, 0.1, 20.0, 0.01), (0.30, 0.1, 20.0, 0.01), (0.2, 0.1, 8.0, 0.3), (0.1, 0.05, 100.0, 0.02),
+          (0.2, 0.1, float("inf"), 0.01), (0.2, 0.25, 0.4, 0.01)]
 
 
 class Scripted(np.random.Generator):
@@ -169,9 +171,28 @@ def check_size(ps, c, rng, quick):
     return bad, ncmp
 
 
+def int_seed_mode(ps, c, P, seed=5):
+    """which deviates feed the sub-harmonics when the seed is an integer?  "sequential": the ones that follow the high-frequency
+    screen's on one stream (independent of it);  "coupled": a second generator from the same seed, i.e. the first 54 deviates the
+    high-frequency screen has already used (the library's behaviour before 2981c8d);  "unknown": neither."""
+    r0, delta, L0, l0 = P
+    N = c["N"]
+    hi = np.asarray(ps.ft_phase_screen(r0, N, delta, L0, l0, seed=seed), float)
+    lo = np.asarray(ps.ft_sh_phase_screen(r0, N, delta, L0, l0, seed=seed), float) - hi
+    R = np.random.default_rng(seed)
+    R.normal(size=(N, N)), R.normal(size=(N, N))
+    seq = [(R.normal(size=(3, 3)), R.normal(size=(3, 3))) for _ in range(3)]
+    R2 = np.random.default_rng(seed)
+    cpl = [(R2.normal(size=(3, 3)), R2.normal(size=(3, 3))) for _ in range(3)]
+    for name, d in (("sequential", seq), ("coupled", cpl)):
+        want = expected_lo(c, P, d)
+        if lo.shape == want.shape and np.allclose(lo, want, rtol=0, atol=1e-9 * max(np.abs(want).max(), np.abs(hi).max() * 1e-3)):
+            return name
+    return "unknown"
+
+
 def coupled_ensemble(c, P):
-    """With an INTEGER seed the nested high-frequency call and the sub-harmonic draws come from two generators created from
-    the same seed, so the 54 low-frequency draws equal the first 54 high-frequency draws (named deviation in the model).
+    """When int_seed_mode is "coupled" the 54 low-frequency draws equal the first 54 high-frequency draws.
     Exact structure functions of that coupled ensemble from the model's linear maps: returns min(D_total - D_hi)/max(D_hi)."""
     N = c["N"]
     nd = 2 * N * N
@@ -229,6 +250,7 @@ def run(run):
     total = 0
     var0 = {}
     coupled = {}
+    modes = {}
     for c in sorted(r.printed, key=lambda d: d["N"]):
         with np.errstate(all="ignore"):
             bad, ncmp = check_size(ps, c, rng, quick)
@@ -239,7 +261,15 @@ def run(run):
         var0[c["N"]] = float(cov[0, 0])
         if 6 <= c["N"] <= 10:
             for P in PARAMS:
-                rel = coupled_ensemble(c, P)
+                with np.errstate(all="ignore"):
+                    mode = int_seed_mode(ps, c, P)
+                modes[mode] = modes.get(mode, 0) + 1
+                if mode == "unknown":
+                    run.drift("ft_sh_phase_screen:integer-seed-draw-protocol-not-recognised", dict(N=c["N"], params=P))
+                if mode != "coupled":
+                    continue
+                with np.errstate(all="ignore"):
+                    rel = coupled_ensemble(c, P)
                 coupled[str((c["N"],) + P)] = rel
                 if rel < -1e-9:
                     run.violation("ft_sh_phase_screen:same-seed-coupling-lowers-structure-function", dict(N=c["N"], params=P, rel=rel),
@@ -247,7 +277,7 @@ def run(run):
     run.traces += total
     c0 = sorted(r.printed, key=lambda d: d["N"])[1 if len(r.printed) > 1 else 0]
     run.sample(dict(N=c0["N"], freq=c0["freq"], dc=c0["dc"], E=c0["E"], sh_orders=[s["order"] for s in c0["sh"]]))
-    run.aux.update(unit_draw_probes=total, model_variance_per_size=var0, int_seed_coupled_min_dD_over_maxD=coupled,
+    run.aux.update(unit_draw_probes=total, model_variance_per_size=var0, int_seed_coupled_min_dD_over_maxD=coupled, int_seed_draw_protocol=modes,
                    trusted=["numpy exp/sqrt for the spectrum value (an atom in the model)"])
     run.assumptions += [
         "the two convergence clauses (structure function -> analytic as the grid is refined; sub-harmonics closer at large "
@@ -265,6 +295,10 @@ def replay(run, case):
     rng = np.random.default_rng(run.seed)
     for c in r.printed:
         if c["N"] == case["N"]:
-            bad, _ = check_size(ps, c, rng, True)
+            with np.errstate(all="ignore"):
+                bad, _ = check_size(ps, c, rng, True)
+                for P in PARAMS:
+                    if 6 <= c["N"] <= 10 and int_seed_mode(ps, c, P) == "coupled" and coupled_ensemble(c, P) < -1e-9:
+                        bad.append(("ft_sh_phase_screen:same-seed-coupling-lowers-structure-function", dict(N=c["N"], params=P)))
             for key, detail in bad:
                 run.violation(key, detail, case)
